@@ -411,7 +411,7 @@ def check_encoding(prog, scenA, scenB, origin, encoded, st, viol, do_faults=True
                 st["decode_rng_draws"] += 1
             if out[0] != "scene":
                 viol.append((f"roundtrip-error{which}:{out[1] if len(out) > 1 and out[0] == 'escape' else out[0]}:{feat}",
-                             f"decoding the unmodified encoding {data.hex()} failed: {out}\n{text}", _case("roundtrip", prog, **base)))
+                             f"decoding the unmodified encoding {data.hex()} failed: {out}\n{text}", _case("roundtrip", prog, which=which, **base)))
                 continue
             st["roundtrips" + ("_recompiled" if which else "")] += 1
             snap1 = scene_snapshot(out[1])
@@ -419,7 +419,7 @@ def check_encoding(prog, scenA, scenB, origin, encoded, st, viol, do_faults=True
                 names = snapshot_diff(snap0, snap1)
                 viol.append((f"roundtrip-mismatch{which}:{feat}",
                              f"decoded scene differs from the original in {names[:8]}: original {_show(snap0, names)}; decoded {_show(snap1, names)}\n"
-                             f"bytes={data.hex()} origin={origin}\n{text}", _case("roundtrip", prog, **base)))
+                             f"bytes={data.hex()} origin={origin}\n{text}", _case("roundtrip", prog, which=which, **base)))
                 continue
             try:
                 again = scen.sceneToBytes(out[1])
@@ -427,7 +427,7 @@ def check_encoding(prog, scenA, scenB, origin, encoded, st, viol, do_faults=True
                 again = repr(e)
             if again != data:
                 viol.append((f"reencode-mismatch{which}:{feat}", f"sceneToBytes(sceneFromBytes(d)) != d: {data.hex()} -> {again.hex() if isinstance(again, bytes) else again}\n{text}",
-                             _case("roundtrip", prog, **base)))
+                             _case("roundtrip", prog, which=which, **base)))
     if not do_faults:
         return data
     if data in pstate["seen"]:
@@ -575,7 +575,14 @@ def check_option_variants(prog, scenA, data, st, viol):
         return
     sc, _ = enumerate_scenes_first(s1, mode)
     if sc is not None:
-        _expect_refusal(prog, s2, s1.sceneToBytes(sc), "options:param-value", st, viol, "option_variants", "option_refused", dict(variant="param-value"))
+        d1 = s1.sceneToBytes(sc)
+        _expect_refusal(prog, s2, d1, "options:param-value", st, viol, "option_variants", "option_refused", dict(variant="param-value"))
+        # the same parameter overridden with the int 1 and with the string "1"
+        try:
+            s3 = compile_scenario(text, dict(opts, params=dict(opts.get("params", {}), c18opt="1")))
+        except Exception:  # noqa: BLE001
+            return
+        _expect_refusal(prog, s3, d1, "options:param-int-vs-str", st, viol, "option_variants", "option_refused", dict(variant="param-int-vs-str"))
 
 
 def enumerate_scenes_first(scenario, mode):
@@ -1267,7 +1274,9 @@ def replay(ctx, case):
         origin, scene = _find_scene(scenA, prog[4], case["origin"], "thorough")
         st = new_stats()
         check_encoding(prog, scenA, scenB, origin, encode_scene(scenA, scene), st, viol, do_faults=True, only=kind)
-        if kind == "truncation":
+        if kind == "roundtrip" and "which" in case:
+            viol = [v for v in viol if v[2].get("which") == case["which"]]
+        elif kind == "truncation":
             viol = [v for v in viol if v[2].get("cut") == case["cut"]]
         elif kind == "corruption":
             viol = [v for v in viol if v[2].get("off") == case["off"] and v[2].get("edit") == case["edit"]]
